@@ -116,6 +116,33 @@ class Tpl:
     def atoms(self):
         return [p for p in self.parts if isinstance(p, Atom)]
 
+    # structural identity (used for dict keys such as op names "<base>_<num_id>"): equal structure
+    # implies equal strings; the interpreter refuses lookups that could alias non-structurally.
+    def skey(self):
+        out = []
+        for p in self.parts:
+            if isinstance(p, str):
+                out.append(("s", p))
+            elif isinstance(p, Atom):
+                out.append(("a", p.tag, p.ordinal, p.kind, id(p) if p.kind not in ("read", "fmtint") else 0,
+                            p.meta["term"].get_id() if "term" in p.meta and hasattr(p.meta["term"], "get_id") else 0))
+            else:
+                out.append(("i", p.t.get_id()))
+        return tuple(out)
+
+    def skeleton(self):
+        return tuple(p if isinstance(p, str) else None for p in self.parts)
+
+    def __hash__(self):
+        return hash(self.skey())
+
+    def __eq__(self, other):
+        if isinstance(other, Tpl):
+            return self.skey() == other.skey()
+        if isinstance(other, str):
+            return len(self.parts) == 1 and self.parts[0] == other
+        return NotImplemented
+
     def render(self, atom_text=None, int_text=None):
         s = ""
         for p in self.parts:
